@@ -745,18 +745,26 @@ func kSweep(c Case, pi probeInfo) []int {
 		lo = 1
 	}
 	var ks []int
+	step := func(n, max int) int { return (n + max - 1) / max }
 	if vh.Thorough() {
 		// every k from 1 for the scenarios of the quick list, every k of
-		// the window (and 1 in 4 before it) for the additional ones
-		for k := 1; k <= hi; k++ {
-			if k < lo && !baseSpec(c) && k%4 != 0 {
-				continue
+		// the window (and 1 in 4 before it) for the additional ones; runs
+		// of large files make thousands of syscalls (mmap, madvise, ...):
+		// above 64 KiB the window is covered by 600 evenly spaced points.
+		st := 1
+		if len(c.data()) > 65536 {
+			st = step(hi-lo+1, 600)
+		}
+		for k := 1; k < lo; k++ {
+			if baseSpec(c) || k%4 == 0 {
+				ks = append(ks, k)
 			}
+		}
+		for k := lo; k <= hi; k += st {
 			ks = append(ks, k)
 		}
 		return ks
 	}
-	step := func(n, max int) int { return (n + max - 1) / max }
 	for k, st := 1, step(lo-1, 24); k < lo; k += st {
 		ks = append(ks, k)
 	}
